@@ -482,3 +482,207 @@ def rule_res1(ctx: Ctx) -> RuleResult:
     rr.ob(ou.relpath, ou.qualname, "str if len(str_types) > 1 else next(iter(str_types))", "more than one pseudo-type left "
           "after resolving means plain str", DISCHARGED if ok else VIOLATED, "found" if ok else "missing", ou.node.lineno)
     return rr
+
+
+# ---------------------------------------------------------------------------------------------------------------
+# "B replaces A" (A is a particular case of B) is a semantic claim: B's parser accepts every string A's accepts.
+# The pairs below were confirmed by reading; each names the structural facts the confirmation rests on.
+COVER_JUSTIFIED = {
+    ("IntString", "FloatString"): "int(s) succeeding implies float(s) succeeds (same whitespace/underscore/sign rules; "
+                                  "digits beyond double range become inf, not an error)",
+}
+
+
+def _registrations(prog) -> List[Tuple[str, List[str], ast.AST, str]]:
+    """(class name, replaced class names, node, relpath) for every registry.add(...) in the package."""
+    out = []
+    for m in prog.modules.values():
+        for c in m.all_classes:
+            for d in c.node.decorator_list:
+                if isinstance(d, ast.Call) and isinstance(d.func, ast.Attribute) and d.func.attr == "add":
+                    reps = []
+                    for kw in d.keywords:
+                        if kw.arg == "replace_types":
+                            reps = [norm(e) for e in (kw.value.elts if isinstance(kw.value, (ast.Tuple, ast.List, ast.Set)) else [kw.value])]
+                    out.append((c.name, reps, d, m.relpath))
+        for n in ast.walk(m.tree) if hasattr(m, "tree") else []:
+            if isinstance(n, ast.Call) and isinstance(n.func, ast.Attribute) and n.func.attr == "add":
+                kws = {kw.arg: kw.value for kw in n.keywords if kw.arg}
+                if "cls" in kws:
+                    reps = []
+                    if "replace_types" in kws:
+                        v = kws["replace_types"]
+                        reps = [norm(e) for e in (v.elts if isinstance(v, (ast.Tuple, ast.List, ast.Set)) else [v])]
+                    out.append((norm(kws["cls"]), reps, n, m.relpath))
+    return out
+
+
+def _parser_of(prog, cname: str) -> Optional[FuncInfo]:
+    for m in prog.modules.values():
+        for c in m.all_classes:
+            if c.name == cname:
+                ms = prog.lookup_method(c, "to_internal_value")
+                return ms[0] if ms else None
+    return None
+
+
+def _plain_constructor_parser(f: FuncInfo) -> Tuple[bool, str]:
+    """True when the parser only calls `cls(value)`: it rejects what the builtin base rejects and nothing else."""
+    nodes = list(walk_no_nested(f.node))
+    raises = [n for n in nodes if isinstance(n, (ast.Raise, ast.Assert))]
+    if raises:
+        return False, f"it rejects strings on conditions of its own (`{norm(raises[0])[:60]}`, line {raises[0].lineno})"
+    ctor = [n for n in nodes if isinstance(n, ast.Call) and norm(n.func) == "cls" and len(n.args) == 1 and
+            isinstance(n.args[0], ast.Name) and n.args[0].id in f.params]
+    other_calls = [n for n in nodes if isinstance(n, ast.Call) and n not in ctor]
+    if ctor and not other_calls and not any(isinstance(n, (ast.If, ast.IfExp, ast.Try, ast.While, ast.For)) for n in nodes):
+        return True, "the plain constructor call cls(value)"
+    return False, "it is no longer just the constructor call `cls(value)`"
+
+
+def rule_cover1(ctx: Ctx) -> RuleResult:
+    rr = RuleResult("COVER-1", "a pseudo-type replaces another only where its parser provably accepts all the other accepts", floor=1)
+    prog = ctx.prog
+    regs = _registrations(prog)
+    if len(regs) < 5:
+        raise AnalysisError(f"COVER-1: only {len(regs)} pseudo-type registrations found")
+    pairs = [(a, b, node, rel) for b, reps, node, rel in regs for a in reps]
+    st = ("`B` registered with replace_types=(A,) means a field holding A-strings and B-strings is typed B: B's parser must "
+          "accept every string A's parser accepts")
+    n_pairs = 0
+    for a, b, node, rel in pairs:
+        n_pairs += 1
+        rr.instances += 1
+        why = COVER_JUSTIFIED.get((a, b))
+        if why is None:
+            rr.ob(rel, b, norm(node)[:90], st, VIOLATED,
+                  f"{b} is declared to cover {a}, but nothing shows that {b}'s parser (and the type emitted for {b}) accepts "
+                  f"every string {a} accepts; the confirmed pairs are {sorted(COVER_JUSTIFIED)}", node.lineno)
+            continue
+        pa, pb = _parser_of(prog, a), _parser_of(prog, b)
+        if pa is None or pb is None:
+            raise AnalysisError(f"COVER-1: parser of {a} or {b} not found")
+        okb, howb = _plain_constructor_parser(pb)
+        bases_ok = True
+        for cname, base in ((a, "int"), (b, "float")):
+            c = next((c for m in prog.modules.values() for c in m.all_classes if c.name == cname), None)
+            if c is None or base not in [norm(x) for x in c.node.bases]:
+                bases_ok = False
+        ok = okb and bases_ok
+        rr.ob(pb.relpath, pb.qualname, norm(node)[:90], st, DISCHARGED if ok else VIOLATED,
+              f"{why}; {b}'s parser is {howb}" if ok else
+              (f"{b} covers {a}, but {howb}: strings {a} accepts can now be rejected by the type chosen for the field"
+               if not okb else f"{a}/{b} no longer derive from int/float, the inclusion the pair rests on"), pb.node.lineno)
+    if n_pairs == 0:
+        rr.instances += 1
+        rr.ob(SSR[0], SSR[1], "replace_types", st, DISCHARGED, "no cover pair is registered", 1)
+    return rr
+
+
+# renderer forms that are inverses of the parsers in use (parse(render(v)) == v for every value the parser can produce)
+RENDER_INVERSE_OK = {
+    "str(self)": "int/float: str() round-trips through the constructor (repr-precision since 3.1; 'nan'/'inf' parse back)",
+    "self.isoformat()": "date/time/datetime: isoformat() is what isoparse / dateutil.parse read back, zero-padded years included",
+    "date.isoformat(self)": "same method, called through the base class",
+    "time.isoformat(self)": "same method, called through the base class",
+    "datetime.isoformat(self)": "same method, called through the base class",
+    "super().isoformat()": "same method, called through super()",
+    "int.__str__(self)": "same as str(self)",
+    "float.__str__(self)": "same as str(self)",
+    "float.__repr__(self)": "float repr is the shortest round-tripping text",
+    "repr(float(self))": "float repr is the shortest round-tripping text",
+    "str(float(self))": "same text as str(self)",
+    "str(int(self))": "same text as str(self)",
+    "str(bool(self)).lower()": "bool: 'true'/'false' are the two strings the parser maps back",
+}
+RENDER_KNOWN_BAD = ("strftime", "__format__", "ctime", "format(", "%")
+
+
+def rule_rt1(ctx: Ctx) -> RuleResult:
+    rr = RuleResult("RT-1", "every pseudo-type renders with the inverse of its parser", floor=5)
+    prog = ctx.prog
+    base = prog.cls(*SS)
+    n = 0
+    for k in prog.subclasses(base, strict=True):
+        ms = k.methods.get("to_representation", [])
+        if not ms:
+            inh = prog.lookup_method(k, "to_representation")
+            if not inh or inh[0].cls is base:
+                continue
+            ms = inh
+        f = ms[0]
+        n += 1
+        rr.instances += 1
+        rets = [x for x in walk_no_nested(f.node) if isinstance(x, ast.Return) and x.value is not None]
+        st = (f"parsing what {k.name}.to_representation() produces gives back an equal value: the renderer is the inverse "
+              f"of the parser for every value (years below 1000, NaN, infinities, negative zero included)")
+        forms = [norm(r.value) for r in rets]
+        # one level through a helper method of the same class
+        expanded = []
+        for r in rets:
+            v = r.value
+            if isinstance(v, ast.Call) and isinstance(v.func, ast.Attribute) and isinstance(v.func.value, ast.Name) and \
+                    v.func.value.id == "self" and not v.args and not v.keywords and v.func.attr in k.methods:
+                h = k.methods[v.func.attr][0]
+                expanded += [norm(x.value) for x in walk_no_nested(h.node) if isinstance(x, ast.Return) and x.value is not None]
+            else:
+                expanded.append(norm(v))
+        bad = [e for e in expanded if e not in RENDER_INVERSE_OK]
+        if not rets:
+            rr.ob(f.relpath, f.qualname, "to_representation", st, VIOLATED, "nothing is returned", f.node.lineno)
+        elif not bad:
+            rr.ob(f.relpath, f.qualname, "; ".join(forms)[:80], st, DISCHARGED, RENDER_INVERSE_OK[expanded[0]], f.node.lineno)
+        elif any(any(b in e for b in RENDER_KNOWN_BAD) for e in bad):
+            rr.ob(f.relpath, f.qualname, "; ".join(forms)[:80], st, VIOLATED,
+                  f"`{bad[0][:60]}` formats through a format string: the result depends on platform and value range "
+                  f"(%Y is not zero-padded for years below 1000 on glibc) and the parser does not read it back", rets[0].lineno)
+        else:
+            raise AnalysisError(f"RT-1: renderer `{bad[0][:60]}` of {k.name} is not in the table of confirmed inverses; "
+                                f"confirm it and extend RENDER_INVERSE_OK")
+    if n < 5:
+        raise AnalysisError(f"RT-1: only {n} renderers found")
+    return rr
+
+
+def rule_det6(ctx: Ctx) -> RuleResult:
+    """A string is declared a plain string only after every registered parser has been tried on it."""
+    rr = RuleResult("DET-6", "plain `str` / Literal is the verdict only when all registered parsers rejected the string", floor=1)
+    f = ctx.prog.func(*GEN)
+    mod = f.module
+    loops = [n for n in walk_no_nested(f.node) if isinstance(n, ast.For) and "str_types_registry" in norm(n.iter)]
+    if len(loops) != 1:
+        raise AnalysisError(f"DET-6: expected one loop over the pseudo-type registry in _detect_type, found {len(loops)}")
+    lp = loops[0]
+    holder = mod.parents.get(lp)
+    block = None
+    for fld in ("body", "orelse", "finalbody"):
+        b = getattr(holder, fld, None)
+        if isinstance(b, list) and lp in b:
+            block = b
+    if block is None:
+        raise AnalysisError("DET-6: cannot locate the block holding the registry loop")
+    idx = block.index(lp)
+    lv = norm(lp.target)
+    st = ("inside the string branch, the only way to an answer other than a pseudo-type leads through the exhausted loop over "
+          "the registry: a shortcut in front of it (length, first character, cache) types a parseable string as str")
+    n = 0
+    for i, stmt in enumerate(block):
+        for r in ast.walk(stmt):
+            if not isinstance(r, ast.Return) or r.value is None:
+                continue
+            n += 1
+            rr.instances += 1
+            inside = any(r is x for x in ast.walk(lp))
+            if inside:
+                ok = norm(r.value) == lv
+                rr.ob(f.relpath, f.qualname, norm(r)[:70], st, DISCHARGED if ok else VIOLATED,
+                      "returns the accepting pseudo-type" if ok else
+                      f"`{norm(r)[:50]}` leaves the loop with another answer before the remaining parsers were tried", r.lineno)
+            elif i < idx:
+                rr.ob(f.relpath, f.qualname, norm(r)[:70], st, VIOLATED,
+                      f"`{norm(r)[:50]}` answers before any parser has seen the string", r.lineno)
+            else:
+                rr.ob(f.relpath, f.qualname, norm(r)[:70], st, DISCHARGED, "reached only after the loop is exhausted", r.lineno)
+    if n < 2:
+        raise AnalysisError(f"DET-6: only {n} returns in the string branch")
+    return rr
